@@ -26,6 +26,8 @@ CONSTANTS
     TagOps,          \* set of <<new, gone>> (disjoint) the reporter may pass to tags()
     Times,           \* explicit values for time()
     MaxCalls, MaxTests, MaxRuns, MaxTagOps, MaxTimes,
+    MaxIds,          \* distinct test objects the reporter has: test k is object ((k-1) % MaxIds)+1, so with MaxIds = 1 the
+                     \* same test is listed again and again (one test id then accounts for several problems)
     AllowStop, AllowSetFF, AllowSkipNoStart, AllowDone, AllowProgress,   \* BOOLEAN switches of the call alphabet
     PreFF,           \* subset of BOOLEAN: failfast set on the underlying results before wrapping
     Coded            \* known deviations of the code switched ON in the mechanism (empty = as required)
@@ -490,7 +492,7 @@ Do(c) ==
     /\ ncalls' = ncalls + 1
     /\ UNCHANGED <<stack, preff>>
 
-TestId(k) == "t" \o ToString(k)
+TestId(k) == "t" \o ToString(((k - 1) % MaxIds) + 1)
 
 StartTestRun ==
     /\ phase = "idle" /\ runs < MaxRuns
@@ -668,7 +670,7 @@ ObservedCore(l) ==
 \* the reporter's clock after k calls
 RECURSIVE TimeAt(_)
 TimeAt(k) == IF k = 0 THEN Clock
-             ELSE CASE rh[k].op = "time" -> rh[k].v
+             ELSE CASE rh[k].op = "time" -> (IF rh[k].v = None THEN Clock ELSE rh[k].v)   \* time(None): back to the system clock
                     [] rh[k].op = "startTestRun" -> Clock
                     [] OTHER -> TimeAt(k - 1)
 LastStartBefore(k) == LET s == {j \in 1..(k - 1) : rh[j].op = "startTest"} IN IF s = {} THEN 0 ELSE MaxOf(s)
